@@ -1308,8 +1308,15 @@ impl<'source, 'trivia> GroupBuilder<'source, 'trivia> {
     ) {
         match item.token {
             TriviaToken::EmptyLine => {
-                self.strip_trailing_breaks();
-                self.items.push(FormatItem::LineBreak);
+                // An empty line directly after the start of a block is dropped
+                // (stripping the trailing breaks here would remove the block's start).
+                if !matches!(
+                    self.items.last(),
+                    Some(FormatItem::GroupBreak(GroupBreak::StartBlock))
+                ) {
+                    self.strip_trailing_breaks();
+                    self.items.push(FormatItem::LineBreak);
+                }
             }
             TriviaToken::CommentSingle | TriviaToken::SkipNode => {
                 if item.token == TriviaToken::SkipNode {
